@@ -37,7 +37,14 @@ RULE = ('all tables with 0..n rows: kind kv = key over K4 {None, i1, i2, s1} x v
         'x kind of the input table (on the small kinds, default strategy, never presorted): etl.sort(t, key), '
         'etl.sort(t, key, reverse=True), etl.sort(t, value field), etl.sort(t, key, buffersize=1) - each with exactly '
         'the key spec that is then the grouping key -, cache(t), a generator-backed Table; the expected groups are '
-        'those of the row sequence such an operand delivers (computed with the reference order). '
+        'those of the row sequence such an operand delivers (computed with the reference order); and one-shot '
+        'sources that can be read in a single pass only (generator, iter(list), etl.wrap(iterator), reader object '
+        'whose __iter__ returns itself) under every configuration that reads the input once: default strategy, '
+        'presorted=True and the sorted-input forms on key-sorted tables (field-name and field-index keys), '
+        'key=None - the result is consumed by one iter() pass and must equal that of the list table. One-shot '
+        'sources are an extension beyond petl\'s table contract, exercised only in configurations where the '
+        'unchanged code reads its input once, with aggregation functions that read their argument in one pass '
+        '(key=None hands over a re-iterable container on which plain list() would call len() first). '
         'x strategy: default, buffersize=1, buffersize=2, presorted=True (only on tables whose key column is '
         'already non-decreasing under the reference order). states = (table, form, strategy) points; a table is '
         'non-trivial when it has >= 2 distinct keys and some key occurs more than once. '
@@ -206,6 +213,18 @@ def _aslist(vals):
     return list(vals)
 
 
+def _onepass_list(vals):
+    return list(iter(vals))
+
+
+def _keynone_list():
+    """The list-building aggregation function for aggregate(key=None, ...).  With key=None petl hands the
+    aggregation function a re-iterable values container (users may call len() on it); plain `list` asks that
+    container for its length first, which is a second pass over the table.  That is fine on a re-iterable
+    table and is kept there, but on a one-shot source the harness itself must read its argument once."""
+    return _onepass_list if _CUR_OPERAND in ONE_SHOT_KINDS else list
+
+
 # ---------------------------------------------------------------------------------------------
 # call forms
 # ---------------------------------------------------------------------------------------------
@@ -277,7 +296,7 @@ form('aggregate(key=None,sum,v)', NUM, 'plain', 'table',
      lambda t, K, kw, p: etl.aggregate(t, None, sum, K.v),
      lambda h, rows, K, p: (('value',), rg.aggregate_simple(rows, None, sum, K.vidx)), nkey=0, law='sum')
 form('aggregate(key=None,list,(v,id))', MAIN, 'plain', 'table',
-     lambda t, K, kw, p: etl.aggregate(t, key=None, aggregation=list, value=(K.v, K.id)),
+     lambda t, K, kw, p: etl.aggregate(t, key=None, aggregation=_keynone_list(), value=(K.v, K.id)),
      lambda h, rows, K, p: (('value',), rg.aggregate_simple(rows, None, list, [K.vidx, K.ididx])), nkey=0)
 
 
@@ -460,6 +479,16 @@ def norm(x):
 # ---------------------------------------------------------------------------------------------
 
 OPERAND_KINDS = ('sort', 'sort-rev', 'sort-other', 'sort-buf1', 'cache', 'gen')
+# one-shot (streaming) sources: the rows can be read in ONE pass only; a second iter() finds them gone.  They are an
+# EXTENSION beyond petl's table contract (a table is a container whose every iter() starts a fresh pass) and are
+# exercised only in configurations where the unchanged code reads its input exactly once; the aggregation
+# functions handed over on this axis read their argument in one pass themselves (see _keynone_list).  Every
+# operator is run in the configurations that read their input once - default strategy (the internal sort opens
+# the source once), presorted=True and key=None (no sort in front at all) - and the result is consumed by a
+# single iter() pass.
+#   'generator'      a generator object            'iterator'  iter(list of lists)
+#   'wrap(iterator)' etl.wrap(iter(list of lists)) 'reader'    an object whose __iter__ returns itself
+ONE_SHOT_KINDS = ('generator', 'iterator', 'wrap(iterator)', 'reader')
 _CUR_OPERAND = 'tuple'
 
 
@@ -471,11 +500,37 @@ class GenTable(etl.Table):
         return (list(r) for r in self.rows)
 
 
+class Reader(object):
+    """A streaming source (rows arriving over a pipe): its __iter__ returns the object itself."""
+
+    def __init__(self, rows):
+        self._it = iter(rows)
+
+    def __iter__(self):
+        return self
+
+    def __next__(self):
+        return next(self._it)
+
+
+def _generate(rows):
+    for r in rows:
+        yield r
+
+
 def make_input(t, K, operand):
     """The object handed to petl for the table t (tuple of tuples, header first)."""
     if operand == 'tuple':
         return t
     lol = [list(r) for r in t]
+    if operand == 'generator':
+        return _generate(lol)
+    if operand == 'iterator':
+        return iter(lol)
+    if operand == 'wrap(iterator)':
+        return etl.wrap(iter(lol))
+    if operand == 'reader':
+        return Reader(lol)
     if operand == 'sort':
         return etl.sort(lol, K.key)
     if operand == 'sort-rev':
@@ -765,7 +820,7 @@ def bounds(tier, seed):
         d = tables if axis == 'plain' else optables
         d[kind] = d.get(kind, 0) + hi - lo
     return {'plan': [list(p) for p in _plan(tier)], 'tables_per_kind': tables, 'call_forms': len(FORMS),
-            'operand_kinds': list(OPERAND_KINDS), 'tables_per_kind_on_operand_axis': optables,
+            'operand_kinds': list(OPERAND_KINDS), 'one_shot_source_kinds': list(ONE_SHOT_KINDS), 'tables_per_kind_on_operand_axis': optables,
             'argument_spellings': {'single key': ['name'] + list(KSPELL_SINGLE),
                                    'compound key': ['name'] + list(KSPELL_COMPOUND), 'value fields': ['name', 'index'],
                                    'strategies on spelled kinds': 'default + presorted (quick), + buffersize=1 (thorough)'},
@@ -799,6 +854,8 @@ def group_of(f, sname, K, sig, operand='tuple'):
     """Violation group: call form x strategy class for the canonical spelling; for the alternative argument
     spellings one group per (form family, spelling) - the strategy is then in the case only; on the
     operand-kind axis one group per (form family, operand kind)."""
+    if operand in ONE_SHOT_KINDS:
+        return '%s [%s; input is a one-shot source] | %s' % (family(f), sname, sig)
     if operand != 'tuple':
         return '%s [input is %s] | %s' % (family(f), OPERAND_LABEL[operand], sig)
     if not K.spelled:
@@ -806,40 +863,62 @@ def group_of(f, sname, K, sig, operand='tuple'):
     return '%s [key as %s%s] | %s' % (family(f), K.kspell, ', value fields by index' if K.vspell == 'index' else '', sig)
 
 
-OPERAND_LABEL = {'sort': 'sort(t, key)', 'sort-rev': 'sort(t, key, reverse=True)', 'sort-other': 'sort(t, other key)',
+OPERAND_LABEL = {'generator': 'a one-shot generator', 'iterator': 'a one-shot iterator',
+                 'wrap(iterator)': 'wrap(one-shot iterator)', 'reader': 'a one-shot reader object (__iter__ returns self)',
+                 'sort': 'sort(t, key)', 'sort-rev': 'sort(t, key, reverse=True)', 'sort-other': 'sort(t, other key)',
                  'sort-buf1': 'sort(t, key, buffersize=1)', 'cache': 'cache(t)', 'gen': 'a generator-backed Table'}
 
 
+def operand_strategies(f, operand, keysorted):
+    """View kinds: default strategy only (the operator must sort by itself).  One-shot sources: every
+    configuration that reads the input once - default, plus presorted=True / the sorted-input forms on
+    key-sorted tables (nothing in front of the grouping)."""
+    if operand not in ONE_SHOT_KINDS:
+        return [('default', {})] if f.strat in ('sorted', 'plain') else []
+    if f.strat == 'sorted':
+        return [('default', {})] + ([PRESORTED] if keysorted else [])
+    if f.strat == 'plain':
+        return [('default', {})]
+    if f.strat == 'presorted-only':
+        return [PRESORTED] if keysorted else []
+    if f.strat == 'sorted-input':
+        return [('default', {})] if keysorted else []
+    raise ValueError(f.strat)
+
+
 def run_operand_item(item, acc):
-    """Operand-kind axis: every applicable form with the default strategy (no presorted) on every operand kind."""
+    """Operand-kind axis: every applicable form on every operand kind (see operand_strategies)."""
     kind, n, lo, hi, axis = item
     K = KINDS[kind]
-    forms = [f for f in FORMS.values() if applicable(f, K) and f.strat in ('sorted', 'plain')]
+    forms = [f for f in FORMS.values() if applicable(f, K)]
     for rows in _tables(kind, n, lo, hi):
         t = (K.hdr,) + rows
         nt = is_nontrivial(rows, K)
-        unsorted = not key_sorted(rows, K)
-        for operand in OPERAND_KINDS:
+        ks = key_sorted(rows, K)
+        for operand in OPERAND_KINDS + ONE_SHOT_KINDS:
             for f in forms:
                 if f.nonempty and not rows:
                     continue
                 for p in f.params(n):
-                    obs = observe(f, t, K, {}, p, operand)
-                    acc.states += 1
-                    acc.transitions += 1
-                    acc.evals += 1
-                    acc.counters['op:' + f.name] += 1
-                    acc.counters['operand:' + operand] += 1
-                    if nt:
-                        acc.nontrivial += 1
-                    if unsorted:
-                        acc.counters['unsorted-operand:%s:%s' % (operand, family(f))] += 1
-                    for sig, e, o, msg in judge(f, t, K, {}, p, obs, operand):
-                        acc.violation(group_of(f, 'default', K, sig, operand),
-                                      case_of(f, K, t, 'default', {}, p, sig, operand), e, o,
-                                      msg + ' (input table is %s)' % OPERAND_LABEL[operand])
-                    if f.name == 'aggregate(list,id)':
-                        acc.outcome((operand, obs))
+                    for sname, kw in operand_strategies(f, operand, ks):
+                        obs = observe(f, t, K, kw, p, operand)
+                        acc.states += 1
+                        acc.transitions += 1
+                        acc.evals += 1
+                        acc.counters['op:' + f.name] += 1
+                        acc.counters['operand:' + operand] += 1
+                        if nt:
+                            acc.nontrivial += 1
+                        if not ks:
+                            acc.counters['unsorted-operand:%s:%s' % (operand, family(f))] += 1
+                        if rows and operand in ONE_SHOT_KINDS:
+                            acc.counters['one-shot:%s:%s:%s' % (operand, sname, family(f))] += 1
+                        for sig, e, o, msg in judge(f, t, K, kw, p, obs, operand):
+                            acc.violation(group_of(f, sname, K, sig, operand),
+                                          case_of(f, K, t, sname, kw, p, sig, operand), e, o,
+                                          msg + ' (input table is %s, strategy %r)' % (OPERAND_LABEL[operand], kw))
+                        if f.name == 'aggregate(list,id)':
+                            acc.outcome((operand, obs))
 
 
 def run_item(item, acc):
@@ -906,6 +985,13 @@ def vacuity(cov, tier):
         for fam in fams:
             if not c.get('unsorted-operand:%s:%s' % (operand, fam)):
                 problems.append('operand kind %s never met %s on a table with unsorted keys' % (operand, fam))
+    for operand in ONE_SHOT_KINDS:
+        for f in FORMS.values():
+            want = {'sorted': ('default', 'presorted'), 'plain': ('default',), 'presorted-only': ('presorted',),
+                    'sorted-input': ('default',)}[f.strat]
+            for sname in want:
+                if not c.get('one-shot:%s:%s:%s' % (operand, sname, family(f))):
+                    problems.append('one-shot source %s never met %s [%s] on a table with rows' % (operand, f.name, sname))
     for base in ('kv2', 'vk', 'ck'):
         for name, quick in SPELLED[base]:
             K = KINDS[name]
